@@ -160,6 +160,19 @@ CHECKS["C07"] = dict(
          "parsing and hierarchies deeper than two steps outside.",
     ref="DESIGN.md 5/C07")
 
+CHECKS["C13"] = dict(
+    technique=TECH + " - is_defused() on a symbolic base-URL string; DefusableReader and defuse_xml() control flow under finite-choice "
+                     "read-size / event scripts; payload catalogue through the real parser",
+    category="other",
+    text="Partial (pyexpat trusted). Decided within bounds: (1) defusing is selected exactly for always / non-local under 'nonlocal' / remote "
+         "under 'remote' for every base URL string of the bound; (2) after a pre-scan read and seek(0) the re-reader delivers exactly the "
+         "original bytes with a consistent tell(), or raises OSError, for every read-size script and stream length around the buffer size; "
+         "(3) defuse_xml propagates a forbidden-declaration error raised before the first start tag for every event script and otherwise "
+         "rewinds; (4) the three expat handlers are installed and always raise; (5) 11 DTD payloads x 4 source kinds through the real parser.",
+    note="Trusted base: pyexpat calls the declaration handlers before expanding/fetching (Python documentation). Buffer size constant scaled to "
+         "8 bytes in the reader obligations. URL sources and encodings inside expat outside.",
+    ref="DESIGN.md 5/C13")
+
 NOT_APPLICABLE = {
     "C18": "quantifies over thread interleavings; no engine of this family here executes Python threads symbolically (CrossHair is "
            "single-threaded); see DESIGN.md section 6",
